@@ -148,11 +148,13 @@ def obj_value(name, sums):
 def dp_relation(case, fmt, ot, got, model_ans, by_id):
     """DP: which optimal record is returned depends on CPython's set order (DESIGN §3): the relation is
     'the returned sums attain the model's optimum'; validity is judged separately by the verified checker."""
-    if "error" in model_ans or not isinstance(got, (dict, list)) or (isinstance(got, dict) and "error" in got):
+    if "error" in model_ans or (isinstance(got, dict) and ("error" in got or "none" in got)):
         return got == model_ans
-    sums = got["sums"] if isinstance(got, dict) else got
+    if ot == "BinCount":
+        return got == case["p"]["k"]
     if ot not in ("Sums", "SortedSums", "PartitionAndSumsTuple", "PartitionAndSums"):
-        return True
+        return True       # a single derived number: compared with the full output by the C06 suite itself
+    sums = got["sums"] if isinstance(got, dict) else got
     return obj_value(case["p"]["obj"], sums) == model_ans["value"]
 
 
